@@ -13,10 +13,38 @@ UList(n, cn, cw, w) == [k |-> "ulist", n |-> n, cn |-> cn, cw |-> cw, w |-> w]
 OptUList(n, cn, cw, w) == [k |-> "optulist", n |-> n, cn |-> cn, cw |-> cw, w |-> w]
 List(n, cn, cw, item) == [k |-> "list", n |-> n, cn |-> cn, cw |-> cw, item |-> item]
 
+FStr(n, w) == [k |-> "fstr", n |-> n, w |-> w]
+TRest(n, mx) == [k |-> "trest", n |-> n, mx |-> mx]          \* mx: longest text generated
+Items(n, cn, mn, item) == [k |-> "items", n |-> n, cn |-> cn, min |-> mn, item |-> item]
+RecLen(n, w) == [k |-> "reclen", n |-> n, w |-> w]
+
 LocationBase == <<U("AlarmSign", 4), U("StatusSign", 4), U("Latitude", 4), U("Longitude", 4), U("Altitude", 2), U("Speed", 2),
                   U("Direction", 2), Bcd("DateTime")>>
 
+\* 0x0100 register: field widths by protocol version (2011 / 2013 / 2019).  On the wire 2011 and 2013 share a header;
+\* a body longer than 36 bytes is 2013 by the implementation's documented rule, so a 2011 plate has at most 11 bytes.
+Register(m, t, id, plate) == <<U("ProvinceID", 2), U("CityID", 2), FStr("ManufacturerID", m), FStr("TerminalModel", t), FStr("TerminalID", id),
+                               U("PlateColor", 1), TRest("LicensePlateNumber", plate)>>
+\* active-safety alarm sign by dialect (1 JS, 2 HLJ, 3 GD, 4 HN, 5 SC): terminal id, BCD time, serial, attachment count, reserve
+IdLen(d) == CASE d \in {1, 4} -> 7 [] OTHER -> 30
+SignLen(d) == CASE d = 1 -> 16 [] d = 2 -> 38 [] d = 3 -> 40 [] d = 4 -> 32 [] d = 5 -> 39
+Sign(d) == <<FStr("P9208AlarmSign.TerminalID", IdLen(d)), Bcd("P9208AlarmSign.Time"), U("P9208AlarmSign.SerialNumber", 1),
+             U("P9208AlarmSign.AttachNumber", 1), Raw("P9208AlarmSign.AlarmReserve", SignLen(d) - IdLen(d) - 8)>>
+AlarmAttach(d) == (IF d = 2 THEN <<>> ELSE <<FStr("TerminalID", IdLen(d))>>) \o Sign(d)
+                  \o <<FStr("AlarmID", 32), U("InfoType", 1),
+                       List("T0x1210AlarmItemList", "AttachCount", 1, <<LStr("FileName", "FileNameLen"), U("FileSize", 4)>>)>>
+AttachUpload(d) == <<LStr("ServerAddr", "ServerIPLen"), U("TcpPort", 2), U("UdpPort", 2)>> \o Sign(d) \o <<FStr("AlarmID", 32), Rest("Reserve")>>
+
 LayoutOf == [
+  T0x0100_v1 |-> Register(5, 8, 7, 11), T0x0100_v2 |-> Register(5, 20, 7, 17), T0x0100_v3 |-> Register(11, 30, 30, 17),
+  T0x0102_v2 |-> <<Rest("AuthCode")>>,
+  T0x0102_v3 |-> <<LStr("AuthCode", "AuthCodeLen"), Raw("TerminalIMEI", 15), FStr("SoftwareVersion", 20)>>,
+  T0x0704 |-> <<U("Num", 2), U("LocationType", 1), Items("Items", "Num", 1, <<RecLen("Len", 2)>> \o LocationBase)>>,
+  T0x1210_d1 |-> AlarmAttach(1), T0x1210_d2 |-> AlarmAttach(2), T0x1210_d3 |-> AlarmAttach(3), T0x1210_d4 |-> AlarmAttach(4),
+  T0x1210_d5 |-> AlarmAttach(5),
+  P0x9208_d1 |-> AttachUpload(1), P0x9208_d2 |-> AttachUpload(2), P0x9208_d3 |-> AttachUpload(3), P0x9208_d4 |-> AttachUpload(4),
+  P0x9208_d5 |-> AttachUpload(5),
+  P0x8104 |-> <<>>, P0x9003 |-> <<>>,
   T0x0001 |-> <<U("SerialNumber", 2), U("ID", 2), U("Result", 1)>>,
   P0x8001 |-> <<U("RespondSerialNumber", 2), U("RespondID", 2), U("Result", 1)>>,
   P0x8003 |-> <<U("OriginalSerialNumber", 2), UList("AgainPackageList", "AgainPackageCount", 1, 2)>>,
